@@ -38,15 +38,48 @@ func (e *engine) generateLemmas(prop string) []*oblig {
 			}()
 			st := &state{cells: nil, heap: map[string]Val{}, ghost: map[string]Val{}, pc: "true", frozen: map[string]*types.Map{}}
 			ev := &evalCtx{cur: st, old: st, bind: map[string]Val{}}
-			for _, c := range b.byKind("var") {
-				fc.decls = append(fc.decls, fmt.Sprintf("(declare-fun %s () %s)", c.gname, c.gsort))
+			induct := ""
+			for _, c := range b.byKind("induct") {
+				induct = c.gname
 			}
-			for _, c := range b.byKind("assume") {
-				fc.assumes = append(fc.assumes, fc.evalFormula(c.f, ev))
+			var proves []string
+			np := 0
+			for _, c := range b.clauses {
+				switch c.kind {
+				case "var":
+					fc.decls = append(fc.decls, fmt.Sprintf("(declare-fun %s () %s)", c.gname, c.gsort))
+				case "assume":
+					if induct != "" && sxMentions(c.f, induct) {
+						panic(unsupported{"lemma " + n + ": the induction variable " + induct + " may only occur in prove clauses"})
+					}
+					fc.assumes = append(fc.assumes, fc.evalFormula(c.f, ev))
+				case "call":
+					fc.lemmaCall(st, c)
+				case "apply":
+					fc.assumes = append(fc.assumes, fc.lemmaApply(c, ev))
+				case "prove":
+					t := fc.evalFormula(c.f, ev)
+					proves = append(proves, t)
+					fc.assert(st, "lemma", "prove."+c.name(np), t, c.src, 0)
+					np++
+				}
 			}
-			for i, c := range b.byKind("prove") {
-				fc.assert(st, "lemma", "prove."+c.name(i), fc.evalFormula(c.f, ev), c.src, 0)
+			if induct != "" {
+				// strong induction over the naturals: P(i) may use P(k) for all 0 <= k < i, and i >= 0
+				// (P = the conjunction of the prove clauses; no assumption mentions i)
+				k := "k!ind"
+				var ih []string
+				for _, c := range b.byKind("prove") {
+					ih = append(ih, fc.evalFormula(sxSubst(c.f, map[string]*sx{induct: {atom: k}}), ev))
+				}
+				hyp := fmt.Sprintf("(and (>= %s 0) (forall ((%s Int)) (=> (and (<= 0 %s) (< %s %s)) (and %s))))", induct, k, k, k, induct, strings.Join(ih, " "))
+				// the hypothesis is available to every prove obligation (they were created with nassume = current length; re-point them)
+				fc.assumes = append(fc.assumes, hyp)
+				for _, o := range fc.obligs {
+					o.nassume = len(fc.assumes)
+				}
 			}
+			_ = proves
 			// the assumptions of a lemma must be satisfiable
 			o := fc.assert(st, "cover", "vacuity.assumptions-satisfiable", "false", "lemma assumptions must not be unsat", 0)
 			o.wantSat = true
@@ -60,4 +93,166 @@ func (e *engine) generateLemmas(prop string) []*oblig {
 	return out
 }
 
-var _ = strings.TrimSpace
+// sxMentions: does the symbol occur in the formula (as an atom)?
+func sxMentions(f *sx, sym string) bool {
+	if !f.isL {
+		return f.atom == sym
+	}
+	for _, c := range f.list {
+		if sxMentions(c, sym) {
+			return true
+		}
+	}
+	return false
+}
+
+// sxSubst substitutes atoms (lemma variables are chosen distinct from bound variables).
+func sxSubst(f *sx, m map[string]*sx) *sx {
+	if !f.isL {
+		if r, ok := m[f.atom]; ok {
+			return r
+		}
+		return f
+	}
+	out := &sx{isL: true}
+	for _, c := range f.list {
+		out.list = append(out.list, sxSubst(c, m))
+	}
+	return out
+}
+
+// lemmaCall: "call r := f a b ..." — some call of f whose arguments are the given lemma terms and
+// which satisfies f's preconditions; the postconditions of f's contract (the very clauses the
+// function is verified against) are assumed, with the results named r (r!1, r!2 for further results).
+func (fc *fnCtx) lemmaCall(st *state, c *clause) {
+	fs := strings.Fields(c.src)
+	name, args := fs[0], fs[1:]
+	blk := fc.e.db.funcs[name]
+	if blk == nil {
+		panic(unsupported{"lemma call: no contract for " + name})
+	}
+	fn := fc.e.anyFuncByName(name)
+	if fn == nil {
+		panic(unsupported{"lemma call: no function " + name})
+	}
+	if len(blk.modifies) > 0 {
+		panic(unsupported{"lemma call: " + name + " has a modifies clause"})
+	}
+	sig := fn.Signature
+	var ptypes []types.Type
+	if sig.Recv() != nil {
+		ptypes = append(ptypes, sig.Recv().Type())
+	}
+	for k := 0; k < sig.Params().Len(); k++ {
+		ptypes = append(ptypes, sig.Params().At(k).Type())
+	}
+	if len(args) != len(ptypes) {
+		panic(unsupported{fmt.Sprintf("lemma call %s: %d arguments for %d parameters", name, len(args), len(ptypes))})
+	}
+	var vals []Val
+	bind := map[string]Val{}
+	for k, a := range args {
+		v := Val{T: a, S: fc.sortOf(ptypes[k]), Ty: ptypes[k]}
+		vals = append(vals, v)
+		off := 0
+		if sig.Recv() != nil {
+			off = 1
+		}
+		if k >= off {
+			bind[fmt.Sprintf("$%d", k-off)] = v
+		}
+	}
+	bindParams(bind, fn, vals)
+	blk.used = true
+	for _, th := range blk.theories {
+		fc.theories[th] = true
+	}
+	if blk.kind == "assumed" {
+		fc.trusted["assumed contract of "+blk.name] = true
+	}
+	ev := &evalCtx{cur: st, old: st, bind: bind, callee: true}
+	for _, rc := range blk.byKind("requires") {
+		fc.assumes = append(fc.assumes, fc.evalFormula(rc.f, ev))
+	}
+	b2 := map[string]Val{}
+	for k, v := range bind {
+		b2[k] = v
+	}
+	for k := 0; k < sig.Results().Len(); k++ {
+		rt := sig.Results().At(k).Type()
+		rn := c.gname
+		if k > 0 {
+			rn = fmt.Sprintf("%s!%d", c.gname, k)
+		}
+		fc.decls = append(fc.decls, fmt.Sprintf("(declare-fun %s () %s)", rn, fc.sortOf(rt)))
+		v := Val{T: rn, S: fc.sortOf(rt), Ty: rt}
+		b2[fmt.Sprintf("result%d", k)] = v
+		if k == 0 {
+			b2["result"] = v
+		}
+		if nm := sig.Results().At(k).Name(); nm != "" && nm != "_" {
+			b2[nm] = v
+		}
+	}
+	ev2 := &evalCtx{cur: st, old: st, bind: b2, callee: true}
+	for _, ec := range blk.byKind("ensures") {
+		fc.assumes = append(fc.assumes, fc.evalFormula(ec.f, ev2))
+	}
+}
+
+// lemmaApply: "apply L (x t) ..." — the statement of lemma L (its assumptions imply its prove clauses)
+// instantiated with the given terms; L is proved on its own (same property list required by the caller).
+// Every variable of L must be given, except the induction variable, which is universally quantified over the naturals.
+func (fc *fnCtx) lemmaApply(c *clause, ev *evalCtx) string {
+	lb := fc.e.db.lemmas[c.gname]
+	if lb == nil {
+		panic(unsupported{"apply: no lemma " + c.gname})
+	}
+	if len(lb.byKind("call")) > 0 || len(lb.byKind("apply")) > 0 {
+		panic(unsupported{"apply: lemma " + c.gname + " uses call/apply clauses and cannot be applied"})
+	}
+	for _, pr := range fc.blk.props {
+		if !hasProp(lb.props, pr) {
+			panic(unsupported{"apply: lemma " + c.gname + " is not proved under property " + pr})
+		}
+	}
+	lb.used = true
+	for _, th := range lb.theories {
+		fc.theories[th] = true
+	}
+	m := map[string]*sx{}
+	for _, p := range c.f.list {
+		if !p.isL || len(p.list) != 2 || p.list[0].isL {
+			panic(unsupported{"apply " + c.gname + ": expected (var term) pairs"})
+		}
+		m[p.list[0].atom] = p.list[1]
+	}
+	induct := ""
+	for _, ic := range lb.byKind("induct") {
+		induct = ic.gname
+	}
+	for _, vc := range lb.byKind("var") {
+		if _, ok := m[vc.gname]; !ok && vc.gname != induct {
+			panic(unsupported{"apply " + c.gname + ": variable " + vc.gname + " not instantiated"})
+		}
+	}
+	var as, ps []string
+	for _, a := range lb.byKind("assume") {
+		as = append(as, fc.evalFormula(sxSubst(a.f, m), ev))
+	}
+	for _, p := range lb.byKind("prove") {
+		ps = append(ps, fc.evalFormula(sxSubst(p.f, m), ev))
+	}
+	concl := "(and " + strings.Join(ps, " ") + ")"
+	if induct != "" {
+		if _, given := m[induct]; !given {
+			concl = fmt.Sprintf("(forall ((%s Int)) (=> (>= %s 0) %s))", induct, induct, concl)
+		} else {
+			concl = fmt.Sprintf("(=> (>= %s 0) %s)", m[induct].String(), concl)
+		}
+	}
+	if len(as) == 0 {
+		return concl
+	}
+	return fmt.Sprintf("(=> (and %s) %s)", strings.Join(as, " "), concl)
+}
